@@ -22,7 +22,7 @@ _BIN = {ast.Add: operator.add, ast.Sub: operator.sub, ast.Mult: operator.mul, as
         ast.BitAnd: operator.and_, ast.BitOr: operator.or_, ast.LShift: operator.lshift, ast.RShift: operator.rshift}
 _CMP = {ast.Lt: operator.lt, ast.LtE: operator.le, ast.Gt: operator.gt, ast.GtE: operator.ge, ast.Eq: operator.eq, ast.NotEq: operator.ne,
         ast.In: lambda a, b: a in b, ast.NotIn: lambda a, b: a not in b, ast.Is: operator.is_, ast.IsNot: operator.is_not}
-_FUNCS = {'len': len, 'ord': ord, 'chr': chr, 'int': int, 'float': float, 'str': str, 'hex': hex, 'format': format, 'bool': bool, 'abs': abs, 'min': min, 'max': max, 'tuple': tuple,
+_FUNCS = {'len': len, 'ord': ord, 'chr': chr, 'int': int, 'float': float, 'str': str, 'range': lambda *a: list(range(*a)) if len(range(*a)) <= 100000 else (_ for _ in ()).throw(ValueError('range too long')), 'hex': hex, 'format': format, 'bool': bool, 'abs': abs, 'min': min, 'max': max, 'tuple': tuple,
           'list': list, 'frozenset': lambda x=(): tuple(dict.fromkeys(x)), 'set': lambda x=(): list(dict.fromkeys(x)), 'reversed': lambda x: list(reversed(x)), 'sorted': sorted, 'divmod': divmod, 'sum': sum, 'repr': repr}
 _OK_TYPES = (str, int, float, bool, tuple, list, dict, type(None))
 
